@@ -64,6 +64,7 @@ type Exec struct {
 	rng     *rand.Rand
 	lines   int
 	stats   map[string]int
+	aborted bool
 }
 
 func NewExec(root string, out io.Writer, seed int64) *Exec {
@@ -221,7 +222,9 @@ func (e *Exec) fieldDescs(cons []DCons) sod.FieldDescMap {
 }
 
 func consOf(cons []DCons, path string) string {
-	for _, c := range cons {
+	// later entries override earlier ones (as fds.Constraint does)
+	for i := len(cons) - 1; i >= 0; i-- {
+		c := cons[i]
 		if c.Path == path {
 			s := c.C
 			if strings.Contains(s, "u") && !strings.Contains(s, "i") {
@@ -255,7 +258,7 @@ func (e *Exec) Run(op Op) {
 			return
 		}
 	}
-	if e.db == nil && op.Op != "open" {
+	if (e.db == nil && op.Op != "open") || e.aborted {
 		return
 	}
 	switch op.Op {
@@ -522,7 +525,13 @@ func (e *Exec) Run(op Op) {
 	case "control":
 		e.emit("control", guard(func() string { return errClass(e.db.Control()) }))
 	case "repair":
-		e.emit("repair", guard(func() string { return errClass(e.db.Repair(&T{})) }))
+		res := guard(func() string { return errClass(e.db.Repair(&T{})) })
+		e.emit("repair", res)
+		if res == "E:unique" {
+			// files are re-indexed in map order: which ones made it before the conflict is
+			// unspecified, the rest of the history cannot be compared
+			e.aborted = true
+		}
 	case "close":
 		e.emit("close", guard(func() string { return errClass(e.db.Close()) }))
 	case "reopen":
@@ -550,6 +559,15 @@ func (e *Exec) Run(op Op) {
 			panic(err)
 		}
 		e.emit(fmt.Sprintf("addfile %s", e.objToken(t)), "ok")
+
+	case "dropentry":
+		u := e.uuidOfK(op.K)
+		e.tamperSchema(func(m map[string]interface{}) { dropEntry(m, u, op.N == 1) })
+		e.emit(fmt.Sprintf("dropentry %d %d", e.handle(u), op.N), "ok")
+
+	case "reshape":
+		e.tamperSchema(func(m map[string]interface{}) { reshape(m, int(op.N)) })
+		e.emit(fmt.Sprintf("reshape %d", op.N), "ok")
 
 	case "rmschema":
 		os.Remove(filepath.Join(e.collDir(), sod.SchemaFilename))
@@ -726,3 +744,103 @@ func (e *Exec) assignIndex(field string) string {
 }
 
 var caseAlphabet = []string{"a", "Z", "m", "é", "É", "ß", "ÿ", "ǅ", "ǆ", "Ǆ", "İ", "ı", "\u212a", "ſ", "÷", "×", "à", "Þ", "0", " ", "aBc Ééßǅİ\u212a"}
+
+// tamperSchema edits schema.json as another tool would (numbers are kept textually).
+func (e *Exec) tamperSchema(f func(m map[string]interface{})) {
+	path := filepath.Join(e.collDir(), sod.SchemaFilename)
+	data, err := os.ReadFile(path)
+	if err != nil {
+		return
+	}
+	dec := json.NewDecoder(strings.NewReader(string(data)))
+	dec.UseNumber()
+	var m map[string]interface{}
+	if err := dec.Decode(&m); err != nil {
+		panic(err)
+	}
+	f(m)
+	out, err := json.Marshal(m)
+	if err != nil {
+		panic(err)
+	}
+	if err := os.WriteFile(path, out, 0600); err != nil {
+		panic(err)
+	}
+}
+
+// dropEntry removes the index entry of an object: from every map of the index (full), or
+// only from the first field index in name order (leaving the index internally inconsistent).
+func dropEntry(m map[string]interface{}, uuid string, full bool) {
+	idx, ok := m["index"].(map[string]interface{})
+	if !ok {
+		return
+	}
+	ids, _ := idx["object-ids"].(map[string]interface{})
+	oid := ""
+	for k, v := range ids {
+		if v == uuid {
+			oid = k
+		}
+	}
+	if oid == "" {
+		return
+	}
+	fields, _ := idx["fields"].(map[string]interface{})
+	names := []string{}
+	for n := range fields {
+		names = append(names, n)
+	}
+	sort.Strings(names)
+	for i, n := range names {
+		if !full && i > 0 {
+			break
+		}
+		fi := fields[n].(map[string]interface{})
+		entries, _ := fi["index"].([]interface{})
+		kept := []interface{}{}
+		for _, en := range entries {
+			t := en.([]interface{})
+			if fmt.Sprintf("%v", t[1]) != oid {
+				kept = append(kept, en)
+			}
+		}
+		fi["index"] = kept
+	}
+	if full {
+		delete(ids, oid)
+	}
+}
+
+var savedFields interface{}
+
+// reshape makes the stored structure differ from the Go struct: 0 a field disappears,
+// 1 a field appears, 2 a field changes type; 99 restores the original descriptors.
+func reshape(m map[string]interface{}, variant int) {
+	fields, ok := m["fields"].(map[string]interface{})
+	if !ok {
+		return
+	}
+	if variant == 99 {
+		if savedFields != nil {
+			m["fields"] = savedFields
+			savedFields = nil
+		}
+		return
+	}
+	if savedFields == nil {
+		b, _ := json.Marshal(fields)
+		var cp map[string]interface{}
+		json.Unmarshal(b, &cp)
+		savedFields = cp
+	}
+	switch variant {
+	case 0:
+		delete(fields, "U16")
+	case 1:
+		fields["Extra"] = map[string]interface{}{"path": "Extra", "type": "int", "constraints": map[string]interface{}{}}
+	case 2:
+		if d, ok := fields["B"].(map[string]interface{}); ok {
+			d["type"] = "int"
+		}
+	}
+}
